@@ -108,6 +108,8 @@ pub struct Dir {
     delivered: VecDeque<Msg>,
     /// the sender queued a Close into this direction
     pub sink_closed: bool,
+    /// the sender has read the peer's Close: its own data sends fail from then on
+    pub close_owed: bool,
     /// the receiver has consumed the Close of this direction
     pub close_consumed: bool,
     rx_waker: Option<Waker>,
@@ -140,6 +142,13 @@ pub struct Link {
     pub seq: Seq,
     pub evs: Vec<Ev>,
     pub auto_pong: [bool; 2],
+    /// control reply (Pong / Close) that endpoint x owes since its last read; like tungstenite it is
+    /// put on the wire at the start of x's *next* socket operation (read, ready, send, flush, close),
+    /// and a newer reply replaces one that has not left yet
+    pub pending_reply: [Option<Message>; 2],
+    /// WebSocket client role: after the closing handshake a client waits for the server to close the
+    /// transport, i.e. its source ends only when the peer's socket object is gone
+    pub waits_for_transport_close: [bool; 2],
     /// tungstenite ignores data frames that arrive after the local side has sent Close
     pub drop_data_after_close_sent: bool,
     pub t0: Instant,
@@ -159,8 +168,8 @@ pub type L = Arc<Mutex<Link>>;
 
 impl Link {
     pub fn new(cap: usize, latency_max_ms: u64, seq: Seq, lat_seed: u64) -> L {
-        let mk = || Dir { inflight: VecDeque::new(), delivered: VecDeque::new(), sink_closed: false, close_consumed: false, rx_waker: None, tx_waker: None, capacity: cap, sink_err: false, src: SrcMode::Normal, hold: false, latency_max_ms, last_ready: None, receiver_gone: false, sender_gone: false };
-        Arc::new(Mutex::new(Link { d: [mk(), mk()], seq, evs: vec![], auto_pong: [true, true], drop_data_after_close_sent: false, t0: Instant::now(), lat_rng: simcore::Prng::new(lat_seed), n_delivered: 0, backpressure_hits: 0, sink_err_seen: [false; 2], src_ended_seen: [false; 2] }))
+        let mk = || Dir { inflight: VecDeque::new(), delivered: VecDeque::new(), sink_closed: false, close_owed: false, close_consumed: false, rx_waker: None, tx_waker: None, capacity: cap, sink_err: false, src: SrcMode::Normal, hold: false, latency_max_ms, last_ready: None, receiver_gone: false, sender_gone: false };
+        Arc::new(Mutex::new(Link { d: [mk(), mk()], seq, evs: vec![], auto_pong: [true, true], pending_reply: [None, None], waits_for_transport_close: [false, false], drop_data_after_close_sent: false, t0: Instant::now(), lat_rng: simcore::Prng::new(lat_seed), n_delivered: 0, backpressure_hits: 0, sink_err_seen: [false; 2], src_ended_seen: [false; 2] }))
     }
     fn ev(&mut self, stage: Stage, from: usize, w: &Arc<Wire>, injected: bool) {
         let seq = self.seq.tick();
@@ -226,6 +235,27 @@ impl Link {
             }
         }
     }
+    /// put the owed control reply of endpoint `me` on the wire if its sink allows it
+    fn flush_reply(&mut self, me: usize) {
+        if self.pending_reply[me].is_none() {
+            return;
+        }
+        let d = &self.d[me];
+        if d.sink_err || d.receiver_gone {
+            self.pending_reply[me] = None;
+            return;
+        }
+        if d.inflight.len() + d.delivered.len() >= d.capacity {
+            return; // stays pending (a real socket would block)
+        }
+        let m = self.pending_reply[me].take().unwrap();
+        if matches!(m, Message::Close) {
+            self.d[me].sink_closed = true;
+        } else if self.d[me].sink_closed {
+            return;
+        }
+        self.enqueue(me, m, false);
+    }
     fn deliverable(&self, i: usize) -> bool {
         let d = &self.d[i];
         !d.hold && d.inflight.front().is_some_and(|m| m.ready_at <= Instant::now())
@@ -277,17 +307,21 @@ impl WebSocket for SimWs {
             l.sink_err_seen[me] = true;
             return Err(werr());
         }
-        if l.d[me].sink_closed {
+        if l.d[me].sink_closed || l.d[me].close_owed {
             return Err(penguin_mux::Error::Closed);
         }
         if matches!(item, Message::Close) {
             l.d[me].sink_closed = true;
         }
         l.enqueue(me, item, false);
+        // tungstenite buffers the message first and the owed control reply after it
+        l.flush_reply(me);
         Ok(())
     }
     fn poll_flush_unpin(&mut self, _cx: &mut Context<'_>) -> Poll<Result<(), penguin_mux::Error>> {
         let mut l = self.link.lock().unwrap();
+        let me = self.me;
+        l.flush_reply(me);
         if l.d[self.me].sink_err {
             l.sink_err_seen[self.me] = true;
             return Poll::Ready(Err(werr()));
@@ -296,7 +330,9 @@ impl WebSocket for SimWs {
     }
     fn poll_close_unpin(&mut self, cx: &mut Context<'_>) -> Poll<Result<(), penguin_mux::Error>> {
         {
-            let l = self.link.lock().unwrap();
+            let mut l = self.link.lock().unwrap();
+            let me = self.me;
+            l.flush_reply(me);
             if l.d[self.me].sink_closed {
                 return Poll::Ready(Ok(()));
             }
@@ -312,6 +348,7 @@ impl WebSocket for SimWs {
         let mut l = self.link.lock().unwrap();
         let me = self.me;
         let from = 1 - me;
+        l.flush_reply(me);
         loop {
             match l.d[from].src {
                 SrcMode::Err => {
@@ -329,7 +366,11 @@ impl WebSocket for SimWs {
                 }
                 SrcMode::Normal => {}
             }
-            if l.d[from].close_consumed && l.d[me].sink_closed {
+            if l.d[from].close_consumed && l.d[me].sink_closed && l.pending_reply[me].is_none() {
+                if l.waits_for_transport_close[me] && !l.d[from].sender_gone {
+                    l.d[from].rx_waker = Some(cx.waker().clone());
+                    return Poll::Pending;
+                }
                 return Poll::Ready(None);
             }
             if let Some(msg) = l.d[from].delivered.pop_front() {
@@ -347,22 +388,23 @@ impl WebSocket for SimWs {
                 }
                 match msg.m {
                     Message::Ping => {
-                        if l.auto_pong[me] && !l.d[me].sink_closed && !l.d[me].sink_err {
-                            l.enqueue(me, Message::Pong, false);
+                        if l.auto_pong[me] && !l.d[me].sink_closed && !l.d[me].sink_err && !matches!(l.pending_reply[me], Some(Message::Close)) {
+                            l.pending_reply[me] = Some(Message::Pong);
                         }
                     }
                     Message::Close => {
                         l.d[from].close_consumed = true;
                         if !l.d[me].sink_closed && !l.d[me].sink_err {
-                            l.d[me].sink_closed = true;
-                            l.enqueue(me, Message::Close, false);
+                            // from now on our own sends fail; the Close reply leaves with the next operation
+                            l.pending_reply[me] = Some(Message::Close);
+                            l.d[me].close_owed = true;
                         }
                     }
                     _ => {}
                 }
                 return Poll::Ready(Some(Ok(msg.m)));
             }
-            if l.d[from].close_consumed {
+            if l.d[from].close_consumed && !(l.waits_for_transport_close[me] && !l.d[from].sender_gone) && l.pending_reply[me].is_none() {
                 return Poll::Ready(None);
             }
             if l.d[from].sender_gone && l.d[from].inflight.is_empty() {
